@@ -42,7 +42,7 @@ ASSUMPTIONS = [
     "the symbolic item (in ~C, ~P or the custom section) has a 3-4 character mnemonic and a value chosen among {'YES','1.2','COMMA','5'}: the steering names are inside the domain",
     "custom section titles begin with a letter other than V/W/C/P/O/A in either case",
 ]
-WITNESS_TARGETS = ["lower-case-title", "title-with-trailing-text", "steering-name-in-foreign-section", "data-section-not-last", "well-section-without-NULL"]
+WITNESS_TARGETS = ["lower-case-title", "title-with-trailing-text", "steering-name-in-foreign-section", "data-section-not-last", "well-section-without-NULL", "section-with-title-line-only", "header-only-read-with-data-section-not-last"]
 EXCLUSIONS = {}
 LETTERS = {"W": "Ww", "C": "Cc", "P": "Pp", "O": "Oo", "A": "Aa", "X": None}
 STEER_VALUES = ["YES", "1.2", "COMMA", "5"]
@@ -107,18 +107,31 @@ def harness(ns, params):
         from symlas.values import fresh_bool
 
         wnull = fresh_bool("well_has_null")
-        inputs = {"order": order, "engine": engine, "steer_in": steer_in, "titles": [titles[k] for k in order], "smn": smn, "sval": sval, "well_has_null": wnull}
+        emp = fresh_int("empty_section", 0, 3)  # none / ~W / ~P / the custom section consists of its title line only
+        igd = fresh_bool("ignore_data")  # header-only read
+        inputs = {"order": order, "engine": engine, "steer_in": steer_in, "titles": [titles[k] for k in order], "smn": smn, "sval": sval, "well_has_null": wnull, "empty_section": emp, "ignore_data": igd}
         c = core.ctx()
         c.inputs = inputs
         apply_exclusions(inputs)
         sv = STEER_VALUES[sval.__index__()]
         wn = bool(wnull)
+        empty = [None, "W", "P", "X"][emp.__index__()]
+        if empty == steer_in:
+            raise core.Abort()  # the section receiving the symbolic item is not empty
+        if empty == "W":
+            A(z.Not(wnull.e))
+            wn = False
+        ignore_data = bool(igd)
+        core.witness("section-with-title-line-only", empty is not None)
+        core.witness("header-only-read-with-data-section-not-last", ignore_data and order[-1] != "A")
         lines = ["~Version", "VERS. 2.0 : v", "WRAP. NO : w"]
         for k in order:
             lines.append(titles[k])
             body = list(CONTENT[k]) if k in ("O", "A") else [ln for ln, _ in CONTENT[k]]
             if k == "W" and not wn:
                 body = body[:-1]  # a ~Well section without a NULL item
+            if k == empty:
+                body = []
             if k == steer_in:
                 body = body + [concat([smn, ". ", sv, " : x"])]
             lines += body
@@ -127,7 +140,7 @@ def harness(ns, params):
         core.witness("steering-name-in-foreign-section", z.Or([smn.eq_expr(n) for n in ("VERS", "WRAP", "NULL", "DLM")]))
         las = ns.las.LASFile()
         try:
-            las.read(SymFile(lines), engine=engine, mnemonic_case="preserve")
+            las.read(SymFile(lines), engine=engine, mnemonic_case="preserve", ignore_data=ignore_data)
         except Exception as e:
             core.oblige("read-does-not-raise", False, info=repr(e)[:300])
             return {"observed": {"raised": type(e).__name__}}
@@ -143,6 +156,12 @@ def harness(ns, params):
         obl.append(("custom-section-kept-under-its-title", foundx))
         exp = {"Version": [("VERS", "", 2.0, "v"), ("WRAP", "", "NO", "w")], "Well": [t for _, t in CONTENT["W"]][: 4 if wn else 3], "Curves": [t for _, t in CONTENT["C"]], "Parameter": [t for _, t in CONTENT["P"]]}
         xexp = [t for _, t in CONTENT["X"]]
+        if empty == "W":
+            exp["Well"] = []
+        elif empty == "P":
+            exp["Parameter"] = []
+        elif empty == "X":
+            xexp = []
         steer_item = (smn, "", sv if steer_in == "C" else _steer_value(sv), "x")  # ~Curves values stay text
         {"C": exp["Curves"], "P": exp["Parameter"], "X": xexp}[steer_in].append(steer_item)
         for name, items in list(exp.items()) + ([("<custom>", xexp)] if foundx else []):
@@ -159,7 +178,7 @@ def harness(ns, params):
         other = secs.get("Other")
         obl.append(("other-text", _eq(other, "\n".join(CONTENT["O"])) if isinstance(other, (str, SymStr)) else False))
         # data rows: two columns, NULL (-9) of the non-index curve -> NaN
-        if "Curves" in secs and not isinstance(secs["Curves"], (str, SymStr)):
+        if not ignore_data and "Curves" in secs and not isinstance(secs["Curves"], (str, SymStr)):
             cv = list(list.__iter__(secs["Curves"]))
             want = [[1.0, 2.0], [5.0, float("nan") if wn else -9.0]]
             ok = len(cv) >= 2
@@ -205,6 +224,10 @@ def replay(i):
     order, engine, steer_in, titles, smn, sval = i["order"], i["engine"], i["steer_in"], i["titles"], i["smn"], i["sval"]
     sv = STEER_VALUES[sval]
     wn = i.get("well_has_null", True)
+    empty = [None, "W", "P", "X"][i.get("empty_section", 0)]
+    ignore_data = bool(i.get("ignore_data", False))
+    if empty == "W":
+        wn = False
     tmap = dict(zip(order, titles))
     lines = ["~Version", "VERS. 2.0 : v", "WRAP. NO : w"]
     for k in order:
@@ -212,17 +235,21 @@ def replay(i):
         body = list(CONTENT[k]) if k in ("O", "A") else [ln for ln, _ in CONTENT[k]]
         if k == "W" and not wn:
             body = body[:-1]
+        if k == empty:
+            body = []
         if k == steer_in:
             body = body + [smn + ". " + sv + " : x"]
         lines += body
     text = "\n".join(lines) + "\n"
     try:
-        las = lasio.read(text, engine=engine, mnemonic_case="preserve")
+        las = lasio.read(text, engine=engine, mnemonic_case="preserve", ignore_data=ignore_data)
     except Exception as e:
         return {"ok": False, "detail": "read raised %r for\n%s" % (e, text), "observed": {"raised": type(e).__name__}}
     problems = []
     exp = {"Version": [("VERS", "", 2.0, "v"), ("WRAP", "", "NO", "w")], "Well": [t for _, t in CONTENT["W"]][: 4 if wn else 3], "Curves": [t for _, t in CONTENT["C"]], "Parameter": [t for _, t in CONTENT["P"]],
            tmap["X"].strip()[1:]: [t for _, t in CONTENT["X"]]}
+    if empty is not None:
+        exp[{"W": "Well", "P": "Parameter", "X": tmap["X"].strip()[1:]}[empty]] = []
     {"C": exp["Curves"], "P": exp["Parameter"], "X": exp[tmap["X"].strip()[1:]]}[steer_in].append((smn, "", sv if steer_in == "C" else _steer_value(sv), "x"))
     if sorted(las.sections.keys()) != sorted(list(exp.keys()) + ["Other"]):
         problems.append("sections %r, expected %r" % (sorted(las.sections.keys()), sorted(list(exp.keys()) + ["Other"])))
@@ -241,6 +268,6 @@ def replay(i):
     except Exception as e:
         data = repr(e)
     want = [[1.0, 2.0], [5.0, float("nan") if wn else -9.0]]
-    if not (isinstance(data, list) and len(data) == 2 and all(len(a) == 2 and all((x == y) or (x != x and y != y) for x, y in zip(a, b)) for a, b in zip(data, want))):
+    if not ignore_data and not (isinstance(data, list) and len(data) == 2 and all(len(a) == 2 and all((x == y) or (x != x and y != y) for x, y in zip(a, b)) for a, b in zip(data, want))):
         problems.append("data columns are %r, expected %r" % (data, want))
     return {"ok": not problems, "detail": ("; ".join(problems) + " for file:\n" + text) if problems else "ok", "observed": {"raised": None, "nsections": len(las.sections)}}
